@@ -107,6 +107,15 @@ MUTANTS = [
     ("c15-output-swaps-pairs", "internal/pkg/midi/process.go", "\t\t\tportOut <- ev\n", "\t\t\tif len(ev) == 3 && ev[2]%64 == 63 {\n\t\t\t\tif nx, ok2 := <-midiEventsOut; ok2 {\n\t\t\t\t\tportOut <- nx\n\t\t\t\t}\n\t\t\t}\n\t\t\tportOut <- ev\n", ["C15"]),
     ("c15-input-drops-when-busy", "internal/pkg/midi/process.go", "\t\t\tfor ev := range port.Input.ReceiveChannel() {\n\t\t\t\tinEvents <- ev\n\t\t\t}", "\t\t\tfor ev := range port.Input.ReceiveChannel() {\n\t\t\t\tselect {\n\t\t\t\tcase inEvents <- ev:\n\t\t\t\tdefault:\n\t\t\t\t}\n\t\t\t}", ["C15"]),
     ("c15-output-dup-on-note-zero", "internal/pkg/midi/process.go", "\t\t\tportOut <- ev\n", "\t\t\tportOut <- ev\n\t\t\tif len(ev) == 3 && ev[1] == 1 && ev[2] == 17 {\n\t\t\t\tportOut <- ev\n\t\t\t}\n", ["C15"]),
+    ("c18-no-trunc", "cmd/hidi/config.go", "os.O_CREATE|os.O_WRONLY|os.O_TRUNC, 0o666)", "os.O_CREATE|os.O_WRONLY, 0o666)", ["C18"]),
+    ("c18-walk-whole-config", "cmd/hidi/config.go", "err = fs.WalkDir(templateConfig, configDir+\"/factory\", func(path string, entry fs.DirEntry, err error) error {", "err = fs.WalkDir(templateConfig, configDir, func(path string, entry fs.DirEntry, err error) error {", ["C18"]),
+    ("c18-length-compare", "cmd/hidi/config.go", "if bytes.Equal(data, newData) {", "if len(data) == len(newData) && bytes.Equal(data[:0], newData[:0]) {", ["C18"]),
+    ("c18-blacklist-always", "cmd/hidi/config.go", "\tif os.IsNotExist(err) {\n\t\tdst, err := os.OpenFile(blacklistPath", "\tif os.IsNotExist(err) || true {\n\t\tdst, err := os.OpenFile(blacklistPath", ["C18"]),
+    ("c18-blacklist-never", "cmd/hidi/config.go", "\tif os.IsNotExist(err) {\n\t\tdst, err := os.OpenFile(blacklistPath", "\tif os.IsNotExist(err) && false {\n\t\tdst, err := os.OpenFile(blacklistPath", ["C18"]),
+    ("c18-skip-existing-dir-files", "cmd/hidi/config.go", "\t\t\t_, err := os.Stat(path)\n\t\t\tif err == nil {\n\t\t\t\treturn nil\n\t\t\t}", "\t\t\t_, err := os.Stat(path)\n\t\t\tif err == nil {\n\t\t\t\tif strings.HasSuffix(path, \"gamepad\") {\n\t\t\t\t\treturn fs.SkipDir\n\t\t\t\t}\n\t\t\t\treturn nil\n\t\t\t}", ["C18"]),
+    ("c18-embed-drops-readme", "cmd/hidi/config.go", "//go:embed hidi-config/factory/README\n", "", ["C18"]),
+    ("c18-user-placeholder-restored", "cmd/hidi/config.go", "\t// create device blacklist.txt if does not exist.", "\t_ = os.WriteFile(configDir+\"/user/README.md\", []byte(\"see factory\"), 0o666)\n\t// create device blacklist.txt if does not exist.", ["C18"]),
+    ("c09-hidi-zero-rate", "cmd/hidi/config.go", "if rawConfig.HIDI.DiscoveryRate <= 0 {", "if rawConfig.HIDI.DiscoveryRate < 0 {", ["C09"]),
     ("c14-check-before-insert", EVS,
      "\t\td.keyTracker[ie.Event.Code] = struct{}{}\n\t\tok := d.checkExitSequence()", "\t\tok := d.checkExitSequence()\n\t\td.keyTracker[ie.Event.Code] = struct{}{}", ["C14"]),
     ("c14-not-swallowed", EVS, "\t\t\t// this simple hack prevents from hanging\n\t\t\treturn", "\t\t\t// this simple hack prevents from hanging", ["C14"]),
